@@ -38,7 +38,8 @@ def main():
         if r.returncode != 0:
             print(f'{patch}: PATCH DOES NOT APPLY\n{r.stdout}')
             return 3
-        env = dict(os.environ, VERIF_REPO=dst)
+        env = dict(os.environ, VERIF_REPO=dst,
+                   VERIF_EVIDENCE_DIR=os.path.join(tmp, 'evidence'))
         status = 0
         for pid in ids:
             r = subprocess.run([os.path.join(ROOT, 'check'), pid, *extra], env=env,
